@@ -68,7 +68,7 @@ BARE_RETURN = [False]  # render option: `return` without a value (the function t
 RETURN_MASK = [None]  # render option: bit j set -> the j-th return (in source order) is bare
 PAD = [None]  # render option: a statement that lowers to nothing, inserted before every statement
 SHARED_ITERS = [False]  # render option: loops run over named iterators created before, drained after
-PAD_STMTS = {"ann": "zq: int", "glob": "global gq", "pass": "pass", "const": "'doc'"}
+PAD_STMTS = {"ann": "zq: int", "glob": "global gq", "pass": "pass", "const": "'doc'", "def": "def pq(): return 1", "cls": "class Pq: pass"}
 
 
 def render(b, ind, r, read_target=False):
